@@ -22,12 +22,14 @@ struct Abs
     uint64_t cnt[AMAX]; // use count (lfu, lfuda)
     int64_t  age[AMAX]; // time of last use or aging (lfuda)
     size_t   o2[AMAX];
-    int64_t  ttl; // configured uniform ttl (utlru, ut_map, ut_set)
+    int64_t  ttl;  // configured uniform ttl (utlru, ut_map, ut_set)
+    int64_t  tick; // configured aging tick (lfuda)
 };
 static inline void a_clear(Abs& a)
 {
     a.n   = 0;
     a.ttl = 0;
+    a.tick = 0;
     for (size_t i = 0; i < AMAX; ++i)
     {
         a.k[i] = 0; a.v[i] = 0; a.d[i] = 0; a.cnt[i] = 0; a.age[i] = 0; a.o2[i] = 0;
@@ -47,7 +49,7 @@ static inline bool a_same(const Abs& x, size_t i, const Abs& y, size_t j)
 // full equality: same entries in the same order, same second order, same configured ttl
 static inline bool a_eq(const Abs& x, const Abs& y)
 {
-    if (x.n != y.n || x.ttl != y.ttl)
+    if (x.n != y.n || x.ttl != y.ttl || x.tick != y.tick)
         return false;
     for (size_t i = 0; i < AMAX; ++i)
         if (i < x.n && (!a_same(x, i, y, i) || x.o2[i] != y.o2[i]))
